@@ -19,14 +19,23 @@ SLOT_STATE_REDIRECTS = [
     # through a typed array but not through the untyped heap block behind a std Vec
     {"file": SS, "pattern": r"^use std::sync::Arc;$", "replacement": "use std::sync::Arc;\n#[cfg(kani)]\nuse crate::verif_coll::tvec::{Vec, vec};", "count": 1, "required": True},
 ]
-STUBS = ["crypto::aggsig::SecretKey::sign", "consensus::cert::NotarCert::new", "consensus::cert::NotarFallbackCert::new", "consensus::cert::SkipCert::new", "consensus::cert::FastFinalCert::new", "consensus::cert::FinalCert::new"]
+STUBS = ["consensus::pool::slot_state::SlotState::check_safe_to_notar", "crypto::aggsig::SecretKey::sign", "consensus::cert::NotarCert::new", "consensus::cert::NotarFallbackCert::new", "consensus::cert::SkipCert::new", "consensus::cert::FastFinalCert::new", "consensus::cert::FinalCert::new"]
 Q, T = ["quick", "thorough"], ["thorough"]
 import importlib.util, os
 _g = importlib.util.spec_from_file_location("c03gen", os.path.join(os.path.dirname(__file__), "gen.py")); _gen = importlib.util.module_from_spec(_g); _g.loader.exec_module(_gen)
+NTHR_OK = set()
 HARNESSES = [
     {"name": n, "path": MOD, "tiers": (Q if n in _gen.QUICK else T) if k in _gen.REGISTERED_KINDS else [], "role": f"one add_vote step/{_gen.KINDS[k]} vote, holders pattern {d}", "stubs": STUBS, "covers": 1, "mem_gb": 14,
      "bounds": f"2 validators with symbolic 16-bit stakes; who already holds which vote is fixed by the pattern {d}; certificates already received symbolic", "timeout": {"quick": 420, "thorough": 1200}}
     for (n, k, own, d, allow) in _gen.names()
+]
+NTHR = [("c03_nthr_n_0000", 3, Q), ("c03_nthr_n_0100", 3, T), ("c03_nthr_n_0110", 3, Q), ("c03_nthr_n_1010", 2, T), ("c03_nthr_n_1110", 2, T), ("c03_nthr_n_1111", 2, T), ("c03_nthr_n_1001", 2, T), ("c03_nthr_n_1100", 2, T),
+        ("c03_nthr_f_0000", 3, T), ("c03_nthr_f_0100", 3, Q), ("c03_nthr_f_0110", 3, T), ("c03_nthr_f_1110", 2, T)]
+HARNESSES += [
+    {"name": n, "path": MOD, "tiers": (t if os.environ.get("VERIF_EXPERIMENTAL") or n in NTHR_OK else []), "role": "threshold kernel/" + ("notar" if "_n_" in n else "notar-fallback") + " vote, certificates present " + n[-4:], "stubs": STUBS, "covers": c, "mem_gb": 14,
+     "functions": ["SlotState::add_vote", "SlotState::count_notar_stake", "SlotState::count_notar_fallback_stake", "SlotState::is_notar_fallback", "SlotVotes::{notar_votes,notar_fallback_votes}"],
+     "bounds": "2 validators; total stake, the voter's stake and the notar / notar-fallback counters of two competing blocks arbitrary 16-bit values (decoupled from the stored votes: only the new vote is stored); certificates present fixed by the name (notar-fallback A, notar-fallback B, notarization, fast-finalization), consistent with 'present as soon as reached'", "timeout": {"quick": 600, "thorough": 1500}}
+    for (n, c, t) in NTHR
 ]
 SPEC = {
     "property": "C03",
